@@ -3,7 +3,12 @@
      HEAD | ENTRIES | PROG | KEYHEX:HASHDEC ...
    Output: the same tokens as the harness, except that the setsum field of meta: is `#n` (the
    number of items summed) because the model does not compute SHA3, and that f: carries the bytes
-   of the filter block only (the harness prints the whole file). *)
+   of the filter block only (the harness prints the whole file).
+   R cases (second pass, file level):
+     R BRI KRI TBS BITS | ENTRIES | PROG | KEYHEX:HASHDEC ... | FILEHEX | DIGESTHEX
+   run the byte-level reader of Table/ModelFile.v on FILEHEX (the bytes of the file the
+   implementation wrote) and the model's writer on the inputs; output
+     wr:ok | wr:DIFF:<first differing offset>:<model length>   meta:...   the observations. *)
 open Gen_table
 
 let rec pos_of_int (i : int) : positive =
@@ -130,6 +135,40 @@ let show_meta = function
     Printf.sprintf "meta:%s:%s:%s:%s:#%d:%s" (hex_of_bytes m.md_first) (hex_of_bytes m.md_last)
       (dec_of_n m.md_smallest) (dec_of_n m.md_biggest) (List.length m.md_setsum) (dec_of_n m.md_file_size)
 
+(* CRC-32C (Castagnoli), reflected, table driven *)
+let crc_table =
+  Array.init 256 (fun i ->
+      let c = ref i in
+      for _ = 0 to 7 do
+        if !c land 1 = 1 then c := (!c lsr 1) lxor 0x82F63B78 else c := !c lsr 1
+      done;
+      !c)
+let crc32c (bs : n list) : n =
+  let c = ref 0xFFFFFFFF in
+  List.iter (fun b -> c := crc_table.((!c lxor int_of_n b) land 255) lxor (!c lsr 8)) bs;
+  n_of_int ((!c lxor 0xFFFFFFFF) land 0xFFFFFFFF)
+
+let fcode = function
+  | FE e -> code e
+  | FCrc -> "crc32c-failure"
+  | FIo -> "io"
+  | FOffsetTooLarge -> "corruption-final-block-offset-too-large"
+  | FDataPastIndex -> "corruption-data-block-runs-past-index-block"
+
+let show_fout = function
+  | FoKv None -> "-"
+  | FoKv (Some e) -> show_entry e
+  | FoErr e -> "ERR:" ^ fcode e
+  | FoGet (Some v, _) -> "get:" ^ hex_of_bytes v
+  | FoGet (None, true) -> "get:~"
+  | FoGet (None, false) -> "get:-"
+
+let show_fmeta = function
+  | FErr e -> "meta:ERR:" ^ fcode e
+  | FOk m ->
+    Printf.sprintf "meta:%s:%s:%s:%s:%s:%s" (hex_of_bytes m.fm_first) (hex_of_bytes m.fm_last)
+      (dec_of_n m.fm_smallest) (dec_of_n m.fm_biggest) (hex_of_bytes m.fm_setsum) (dec_of_n m.fm_file_size)
+
 let parse_sips (s : string) : (bytes * n) list =
   List.map (fun t ->
       let c = String.index t ':' in
@@ -162,6 +201,26 @@ let run_line (line : string) : string =
        let flt = [ "f:" ^ String.concat "" (List.map (fun b -> String.concat "" (List.map le32 b)) r.sr_filter) ] in
        String.concat " "
          (show_rej r.sr_rej @ [ "seal:ok"; show_meta r.sr_meta ] @ flt @ List.map show_out r.sr_outs))
+  | "R" ->
+    let o = { so_block = { o_bri = nd 1; o_kri = nd 2 }; so_tbs = nd 3; so_tfs = n_of_int (1 lsl 26);
+              so_mfs = n_of_int (1 lsl 22); so_bits = nd 4 } in
+    let filehex = String.trim parts.(4) in
+    let file = bytes_of_hex filehex in
+    let dg = bytes_of_hex (String.trim parts.(5)) in
+    let r = run_file_case crc32c sips file prog o (List.map parse_entry ents) dg in
+    let wr =
+      match r.fr_written with
+      | None -> "wr:NONE"
+      | Some w ->
+        let wh = hex_of_bytes w in
+        if wh = filehex then "wr:ok"
+        else begin
+          let n = Stdlib.min (String.length wh) (String.length filehex) in
+          let i = ref 0 in
+          while !i < n && wh.[!i] = filehex.[!i] do incr i done;
+          Printf.sprintf "wr:DIFF:%d:%d" (!i / 2) (String.length wh / 2)
+        end in
+    String.concat " " ([ wr; show_fmeta r.fr_meta ] @ List.map show_fout r.fr_outs)
   | "M" ->
     let o = { so_block = { o_bri = nd 1; o_kri = nd 2 }; so_tbs = nd 3; so_tfs = nd 4; so_mfs = nd 5;
               so_bits = n_of_int 17 } in
